@@ -3,7 +3,7 @@
    Schedules: RestraintSched.v; staged TI: RestraintTI.v; accumulated work: RestraintWork.v. *)
 From Coq Require Import ZArith List Bool Reals Lra Lia Psatz QArith Qround.
 From Flocq Require Import Core.Raux.
-From CV Require Import Base.Num Base.RNum C06.RestraintModel C06.RestraintSched C06.RestraintTI C06.RestraintWork.
+From CV Require Import Base.Num Base.RNum C06.RestraintModel C06.RestraintSched C06.RestraintTI C06.RestraintWork C06.TIEstimator.
 Import ListNotations.
 Local Open Scope Z_scope.
 
@@ -316,3 +316,13 @@ Section PotentialsR.
       assert (B : (n < 1)%Z) by (apply lt_IZR; simpl; lra). lia.
   Qed.
 End PotentialsR.
+
+(* lagged total forces: when the engine reports, at a new step, the force that acted at the preceding computation
+   (system force + the force this bias applied there), the collected sample is the SYSTEM force of that computation *)
+Lemma ti_lagged_sample_is_system_force (c : @ticfg R) (p i : @tiin R) (sys : R) :
+  ti_same c = false -> in_tf i = (sys + in_fb p)%R ->
+  ti_here Rops c (Some p) (TStep i) = if bin_ok c (bin_of Rops c (in_x p)) then [(bin_of Rops c (in_x p), sys)] else [].
+Proof.
+  intros Hs Ht. unfold ti_here. rewrite Hs, Ht. destruct (bin_ok c _); [|reflexivity].
+  f_equal. f_equal. cbn. ring.
+Qed.
